@@ -89,6 +89,8 @@ def plan(tier):
             add(f'cmp-twin[{name}]', ['cmp_all_twin'], env, est=6)
 
     cmp('2x2:A,C,-', {'C01K3_NT': 2, 'C01K3_NC': 2, 'C01K3_SYMS': 'A,C,-'}, est=25)
+    # soft-masked (lower-case) and RNA (U) symbols: tip states and tip partials must read them alike
+    cmp('2x2:a,U', {'C01K3_NT': 2, 'C01K3_NC': 2, 'C01K3_SYMS': 'a,U', 'C01K3_PERM': 0}, split_perm=False, est=8)
     cmp('2x2:A,-:indices', {'C01K3_NT': 2, 'C01K3_NC': 2, 'C01K3_SYMS': 'A,-', 'C01K3_PERM': 1, 'C01K3_IXMIN': 1, 'C01K3_IXMAX': 4},
         split_perm=False, est=22)
     cod = {'C01K3_NT': 2, 'C01K3_NC': 2, 'C01K3_SYMS': 'ATG,T-A', 'C01K3_DTYPE': 'codon', 'C01K3_CODE': 0}
@@ -404,7 +406,7 @@ def describe(tr, tier):
                                f"{'; Y fixed to {C,G} in the quick tier' if q else ''}), one alias U (symbolic target), query over states + R Y U ? -; "
                                f"separately R as a one-element list")
     tr.bounds['K3 alignments'] = (
-        '2 taxa x <= 2 columns over {A,C,-}, both hand-over orders; 2 x <= 2 over {A,-} with 4 site selections (ints / slices); '
+        '2 taxa x <= 2 columns over {A,C,-}, both hand-over orders; 2 taxa x <= 2 columns over {a,U} (lower case, RNA); 2 x <= 2 over {A,-} with 4 site selections (ints / slices); '
         '2 x <= 2 codon columns over {ATG,T-A} (Universal), also with a site selection' if q else
         '2 taxa x <= 2 columns over {A,C,-} and {A,C,R,-}; 3 taxa x <= 2 columns over {A,R,-} (3 of the 6 hand-over orders); 2 taxa x <= 3 '
         'columns over {A,R,-}; 3 taxa x <= 3 columns over {A,-} (the other 3 hand-over orders); 2 x <= 3 over {A,-} with 6 site selections (ints / slices); 2 x <= 2 '
